@@ -427,6 +427,19 @@ def fl_attr(I, v, name):
     return NotImplementedVal
 
 
+def replay_cap(model, state, ob):
+    """a molecule with more than 10000 raw embeddings of a scheme pattern: n-alkane C520H1042 under the Benson scheme"""
+    if 'cut off' not in ob.get('name', ''):
+        return None
+    import pgradd.ThermoChem  # noqa
+    from . import real
+    lib = real.load('BensonGA')
+    r = real.outcome(lambda: dict(lib.GetDescriptors('C' * 520)))
+    ok = r[0] == 'ok' and {str(k): v for k, v in r[1].items()} == {'C(C)(H)3': 2, 'C(C)2(H)2': 518}
+    return {'failed': not ok, 'input': "GroupLibrary.Load('BensonGA').GetDescriptors('C' * 520)", 'observed': str(r)[:200], 'expected': "{'C(C)(H)3': 2, 'C(C)2(H)2': 518}",
+            'script': "import pgradd.ThermoChem\nfrom pgradd.GroupAdd.Library import GroupLibrary\nprint(dict(GroupLibrary.Load('BensonGA').GetDescriptors('C' * 520)))\n"}
+
+
 def u_getquerymatches(I):
     ctx = I.ctx
     W_ = I.world
@@ -454,12 +467,15 @@ def u_getquerymatches(I):
     qmol = Obj(BuiltinClass('QueryMol'), {}, 'param')
     o = Obj(cls, {'mol': qmol, 'atom_names': ['a%d' % i for i in range(nq)], 'mol_constraints': molcons, 'atom_constraints': atomcons,
                   'bond_constraints': bondcons, 'double_bond_stereo_constraints': stereo}, 'param')
-    ctx.assume(z3.And(NMatch(mid) >= 0, NMatch(mid) < 10000))      # stated precondition: fewer than maxMatches embeddings
+    ctx.assume(NMatch(mid) >= 0)      # NMatch = number of embeddings of the structural query that EXIST (not: that RDKit was allowed to return)
     matches = SymSeq(NMatch(mid), lambda m: tuple(MatchAt(mid, m, q) for q in range(nq)), 'rdkit_matches', origin='fresh')
     calls = []
 
     def gsm(I_, a, k):
         calls.append((a, k))
+        cap = k.get('maxMatches', 1000)          # RDKit's own default when the caller gives none
+        # "nothing satisfying the pattern is omitted" needs every embedding; a cap that can be reached cuts some off (known finding K4)
+        I_.ctx.oblige('no embedding is cut off: the cap on raw RDKit matches (maxMatches) cannot be reached', NMatch(mid) < z3_of(cap), site='GetSubstructMatches')
         return matches
     old_mol_attr = W_.abstract['Mol']['attr']
     W_.abstract['Mol'] = {'attr': lambda I_, m, nm: Builtin('GetSubstructMatches', gsm) if nm == 'GetSubstructMatches' else old_mol_attr(I_, m, nm)}
@@ -583,7 +599,7 @@ UNITS = [
     Unit('BondConstraint.__call__', (MQ, 'BondConstraint.__call__'), u_bondconstraint),
     Unit('AtomConnectivityAtom.__call__', (MQ, 'AtomConnectivityAtom.__call__'), u_connectivity),
     Unit('MolCharge.__call__', (MQ, 'MolCharge.__call__'), u_molcharge),
-    Unit('MolQuery.GetQueryMatches', (MQ, 'MolQuery.GetQueryMatches'), u_getquerymatches),
+    Unit('MolQuery.GetQueryMatches', (MQ, 'MolQuery.GetQueryMatches'), u_getquerymatches, replay_cap),
 ]
 
 
